@@ -299,3 +299,14 @@ func (c *simClock) advanceToDeadlineWithoutFiring(id int, afterEach func()) bool
 		}
 	}
 }
+
+// jumpTo moves the clock forward without delivering anything. Only used
+// when no timer is pending (time passing inside a call of the scheduler,
+// e.g. while it fetches an action from storage).
+func (c *simClock) jumpTo(t time.Time) {
+	c.mu.Lock()
+	if t.After(c.now) {
+		c.now = t
+	}
+	c.mu.Unlock()
+}
